@@ -190,7 +190,7 @@ Fixpoint py_repr (v : V) : option str :=
   match v with
   | Leaf d => Some (fst d)
   | Cycle => None
-  | Seq k _ xs =>
+  | Seq k attr xs =>
       match all_some (map py_repr xs) with
       | None => None
       | Some rs =>
@@ -206,20 +206,30 @@ Fixpoint py_repr (v : V) : option str :=
                           | [] => Some (lit "frozenset()")
                           | _ => Some (lit "frozenset({" ++ inner ++ lit "})")
                           end
-          | _ => None
+          (* deque without maxlen; repr(deque()) is "deque([])" while rich prints "deque()": by design, see notes *)
+          | KDeque => match rs with [] => None | _ => Some (lit "deque([" ++ inner ++ lit "])") end
+          | KArray => match rs with
+                      | [] => Some (lit "array(" ++ attr ++ lit ")")
+                      | _ => Some (lit "array(" ++ attr ++ lit ", [" ++ inner ++ lit "])")
+                      end
           end
       end
-  | Map k _ kvs =>
-      match k with
-      | KDict =>
-          match all_some (map (fun kv => match py_repr (snd kv) with
-                                         | Some r => Some (fst (fst kv) ++ lit ": " ++ r)
-                                         | None => None
-                                         end) kvs) with
-          | Some rs => Some (lit "{" ++ join_str (lit ", ") rs ++ lit "}")
-          | None => None
+  | Map k attr kvs =>
+      match all_some (map (fun kv => match py_repr (snd kv) with
+                                     | Some r => Some (fst (fst kv) ++ lit ": " ++ r)
+                                     | None => None
+                                     end) kvs) with
+      | Some rs =>
+          let inner := join_str (lit ", ") rs in
+          match k with
+          | KDict => Some (lit "{" ++ inner ++ lit "}")
+          | KDefaultdict => Some (lit "defaultdict(" ++ attr ++ lit ", {" ++ inner ++ lit "})")
+          (* Counter.__repr__ lists items by decreasing count, rich in insertion order: only the empty one is
+             the same text ("Counter()"); environ is not in the property's scope *)
+          | KCounter => match rs with [] => Some (lit "Counter()") | _ => None end
+          | KEnviron => None
           end
-      | _ => None
+      | None => None
       end
   end.
 
@@ -249,16 +259,14 @@ Section Layout.
         match n_children n with
         | Some (c0 :: cs) =>
             let fits := negb expand_all && (cell_len one <=? max_width) in
-            if str_eqb l one then (if fits then Some rest else None)
-            else if fits then None
-            else if str_eqb l (py_repeat SP ws ++ key_open n) then
+            if fits then (if str_eqb l one then Some rest else None)     (* fits: must be kept on one line *)
+            else if str_eqb l (py_repeat SP ws ++ key_open n) then       (* does not fit: must be expanded *)
               let tuple1 := n_tuple n && single (c0 :: cs) in
               match (fix go (children : list node) (lines : list str) : option (list str) :=
                        match children with
                        | [] => Some lines
                        | c :: r =>
-                           match walk c (ws + Z.max indent_size 0)
-                                      (if tuple1 then lit "," else separator c) lines with
+                           match walk c (ws + Z.max indent_size 0) (child_suffix tuple1 c) lines with
                            | Some lines' => go r lines'
                            | None => None
                            end
@@ -294,6 +302,26 @@ Fixpoint leaves_ok (v : V) : bool :=
   | Seq _ attr xs => forallb (fun c => negb (c =? NL)) attr && forallb leaves_ok xs
   | Map _ attr kvs => forallb (fun c => negb (c =? NL)) attr
                       && forallb (fun kv => leafd_ok (fst kv) && leaves_ok (snd kv)) kvs
+  end.
+
+(* the two side conditions the theorems actually use *)
+Definition no_nl (s : str) : bool := forallb (fun c => negb (c =? NL)) s.
+Definition leafd_nl_free (d : leafd) : bool :=
+  no_nl (fst d) && match snd d with Some (_, rt) => no_nl rt | None => true end.
+(* no repr contains a raw newline (repr() of str/bytes/numbers escapes it) *)
+Fixpoint nl_free (v : V) : bool :=
+  match v with
+  | Leaf d => leafd_nl_free d
+  | Cycle => true
+  | Seq _ attr xs => no_nl attr && forallb nl_free xs
+  | Map _ attr kvs => no_nl attr && forallb (fun kv => leafd_nl_free (fst kv) && nl_free (snd kv)) kvs
+  end.
+(* the repr of every mapping key is non-empty *)
+Fixpoint keys_nonempty (v : V) : bool :=
+  match v with
+  | Leaf _ | Cycle => true
+  | Seq _ _ xs => forallb keys_nonempty xs
+  | Map _ _ kvs => forallb (fun kv => nonempty (fst (fst kv)) && keys_nonempty (snd kv)) kvs
   end.
 
 (* values whose pretty repr is a Python expression at all (no cycle marker, a factory that has a
